@@ -1892,6 +1892,17 @@ func (k *Kernel) handleReplayedHeader(
 		}
 	}
 
+	// The replayed certificate must be verified and weighed against
+	// the validator set the chain prescribes for this height,
+	// not against whatever set the replayed header happens to carry.
+	if !header.ValidatorSet.Equal(s.Voting.ValidatorSet) {
+		return tmelink.ReplayedHeaderValidationError{
+			Err: errors.New(
+				"replayed header's validator set differs from the voting view's validator set",
+			),
+		}
+	}
+
 	if proof.Round < s.Voting.Round {
 		// There are some edge cases we haven't handled yet with going backwards.
 		// It is a valid case when we saw >2/3 total precommits
@@ -1984,8 +1995,8 @@ func (k *Kernel) handleReplayedHeader(
 			}
 			haveProof, err = k.cmspScheme.New(
 				precommitContent,
-				header.ValidatorSet.PubKeys,
-				string(header.ValidatorSet.PubKeyHash),
+				s.Voting.ValidatorSet.PubKeys,
+				string(s.Voting.ValidatorSet.PubKeyHash),
 			)
 			if err != nil {
 				return tmelink.ReplayedHeaderInternalError{
@@ -2005,7 +2016,7 @@ func (k *Kernel) handleReplayedHeader(
 
 		// Now merge the incoming proof with the local copy.
 		mergeRes := haveProof.MergeSparse(gcrypto.SparseSignatureProof{
-			PubKeyHash: string(header.ValidatorSet.PubKeyHash),
+			PubKeyHash: string(s.Voting.ValidatorSet.PubKeyHash),
 			Signatures: sparseSigs,
 		})
 
@@ -2062,8 +2073,8 @@ func (k *Kernel) handleReplayedHeader(
 	var blockPow uint64
 	var bs bitset.BitSet
 	tempProofs[string(header.Hash)].SignatureBitSet(&bs)
-	for i, ok := bs.NextSet(0); ok && int(i) < len(header.ValidatorSet.Validators); i, ok = bs.NextSet(i + 1) {
-		blockPow += header.ValidatorSet.Validators[int(i)].Power
+	for i, ok := bs.NextSet(0); ok && int(i) < len(s.Voting.ValidatorSet.Validators); i, ok = bs.NextSet(i + 1) {
+		blockPow += s.Voting.ValidatorSet.Validators[int(i)].Power
 	}
 
 	// Arguably we could update the precommit proofs now;
